@@ -4,16 +4,16 @@ S = 'tlx/string/'
 CAP = ['--alloc-cap', '128']
 ALL = ['base64.cpp', 'hexdump.cpp', 'split.cpp', 'join_quoted.cpp', 'split_quoted.cpp', 'replace.cpp', 'trim.cpp', 'erase_all.cpp', 'pad.cpp', 'starts_with.cpp', 'ends_with.cpp', 'contains.cpp', 'to_lower.cpp', 'to_upper.cpp', 'compare_icase.cpp', 'equal_icase.cpp']
 
-def Q(name, entry, desc, defs, link, quick=True, timeout=None, extra_ll2c=(), **kw):
+def Q(name, entry, desc, defs, link, quick=True, timeout=None, extra_ll2c=(), cap=None, **kw):
     link = ALL
-    return Query(name, SRC, entry, desc, defs=defs, link=[S + l for l in link], ll2c=CAP + list(extra_ll2c), tiers=('quick', 'thorough') if quick else ('thorough',),
+    return Query(name, SRC, entry, desc, defs=defs, link=[S + l for l in link], ll2c=(['--alloc-cap', str(cap)] if cap else CAP) + list(extra_ll2c), tiers=('quick', 'thorough') if quick else ('thorough',),
                  timeout=timeout or (900 if quick else 3600), unwind=4, **kw)
 
 def queries():
     qs = []
     for n in range(0, 9):
         for lb in (0, 4, 8):
-            quick = (lb == 0 and n in (0, 1, 2, 3, 4)) or (lb == 4 and n in (3, 4))
+            quick = (lb == 0 and n in (0, 3)) or (lb == 4 and n == 4)    # 8 min each; the other lengths / widths are in the thorough tier
             qs.append(Q('b64_n%d_lb%d' % (n, lb), 'h_base64', 'base64: encode == RFC 4648, decode(encode(m)) == m; message length %d, line_break %d, all byte values' % (n, lb),
                         ['N=%d' % n, 'LB=%d' % lb], ['base64.cpp'], quick=quick, weight=n))
     for n in range(0, 6):
@@ -30,11 +30,11 @@ def queries():
             qs.append(Q('split_p%d_s%d' % (parts, seplen), 'h_split', 'split(%s sep, join(parts)) == parts and limit semantics; %d parts of length 0..2 over {sep bytes, a, NUL, 0xFF}' % ('char' if seplen == 1 else '2-byte string', parts),
                         ['NPARTS=%d' % parts, 'SEPLEN=%d' % seplen, 'M=2'], ['split.cpp'], quick=parts <= 2, weight=parts * 4, extra_ll2c=['--unreachable', '_M_realloc_insert']))
         qs.append(Q('quoted_p%d' % parts, 'h_quoted', 'split_quoted(join_quoted(v)) == v; %d fields of length 0..2 over {space, quote, backslash, newline, tab, a, n}' % parts,
-                    ['NPARTS=%d' % parts, 'M=2'], ['join_quoted.cpp', 'split_quoted.cpp'], quick=parts <= 1, weight=parts * 4 + 20, timeout=3600 if parts <= 1 else 14400, extra_ll2c=['--model-string-vector-growth', '4']))
+                    ['NPARTS=%d' % parts, 'M=2'], ['join_quoted.cpp', 'split_quoted.cpp'], quick=False, weight=parts * 4 + 20, timeout=3600 if parts <= 1 else 14400, extra_ll2c=['--model-string-vector-growth', '4']))
     for n, m in ((0, 0), (1, 1), (2, 1), (3, 1), (3, 2), (4, 2), (4, 3)):
-        quick = (n, m) in ((0, 0), (2, 1), (3, 2))
+        quick = (n, m) in ((0, 0), (2, 1), (3, 2)); quick_a = (n, m) in ((0, 0), (1, 1))   # helpers A with 2+ characters: 9-12 M variables, 3-6 min per solver run -> thorough tier
         qs.append(Q('helpersA_n%d_m%d' % (n, m), 'h_helpers_a', 'replace_first/all, trim family, erase_all, pad vs definitional loops; string length %d, needle/drop-set length %d, replacement length 0..2' % (n, m),
-                    ['N=%d' % n, 'M=%d' % m], ['replace.cpp', 'trim.cpp', 'erase_all.cpp', 'pad.cpp'], quick=quick, weight=n * 3))
+                    ['N=%d' % n, 'M=%d' % m], ['replace.cpp', 'trim.cpp', 'erase_all.cpp', 'pad.cpp'], quick=quick_a, weight=n * 3, cap=32))   # strings stay below 16 bytes (SSO): a 32-byte cap (asserted) keeps the capped blocks small
         qs.append(Q('helpersB_n%d_m%d' % (n, m), 'h_helpers_b', 'starts/ends_with(_icase), contains, to_lower/upper, compare/equal_icase, levenshtein(_icase) vs definitions; lengths %d and %d over {a,A,b,Z,[,0xE4}' % (n, m),
                     ['N=%d' % n, 'M=%d' % m], ['starts_with.cpp', 'ends_with.cpp', 'contains.cpp', 'to_lower.cpp', 'to_upper.cpp', 'compare_icase.cpp', 'equal_icase.cpp'], quick=quick, weight=n * 3))
     return qs
